@@ -389,6 +389,7 @@ class C09(World):
             graph.repair_rigid = cfg["repair_rigid"]
         model = Forest(graph.base_frame)
         assert graph.base_frame == "world"
+        retired = []  # the other side of every copy, with the model it had at that moment
 
         for step, op in enumerate(program["ops"]):
             ctx.step = step
@@ -404,7 +405,14 @@ class C09(World):
                 ctx.count("skip:inapplicable")
                 continue
             if isinstance(outcome, tuple):
-                graph, outcome = outcome
+                g2, outcome = outcome
+                # continue on the copy or on the original (decided by the op); the other side is retired with a frozen model
+                # and must still answer correctly at the end, whatever is done to the side that lives on
+                if int(op.get("rs", 0)) % 2:
+                    retired.append((graph, model.copy()))
+                    graph = g2
+                else:
+                    retired.append((g2, model.copy()))
             ctx.count("op:" + kind)
             ctx.steps_sim += 1
             ctx.reach(*state, outcome)
@@ -413,6 +421,9 @@ class C09(World):
             self._check_some(graph, model, op, ctx)
         ctx.step = "final"
         self._final(graph, model, program, ctx)
+        for i, (g_old, m_old) in enumerate(retired[:3]):
+            ctx.step = f"final-retired-{i}"
+            self._final(g_old, m_old, program, ctx)
 
     def _tol(self, want, model):
         return (1e-6 + 1e-7 * model.near) * max(1.0, float(np.abs(want).max()))
